@@ -19,6 +19,9 @@ pub enum Op {
     Define(u8, u8, bool),
     Open,
     Close,
+    /// (random histories only) the host executes, against the current scope, a macro over the name whose body fails part-way
+    /// (kind 0) or succeeds (kind 1): afterwards every name answers as before
+    Fold(u8, u8),
 }
 
 #[derive(Clone, Debug, Serialize, Deserialize)]
@@ -127,6 +130,14 @@ fn run_scope(ctx: &mut Context, h: &History, pos: &mut usize, m: &mut Scopes, pr
                 }
                 m.last_mut().unwrap().push((n as usize, val));
                 observe(ctx, m, h, progs, &format!("after op {} {:?}", *pos - 1, op))?;
+            }
+            Op::Fold(n, kind) => {
+                let name = NAMES[n as usize % 3];
+                let src = if kind % 2 == 0 { format!("[7, 0, 8].map({name}, 56 / {name})") } else { format!("[7, 8].all({name}, {name} > 0) && [[1], [2]].exists({name}, {name}.size() == 1)") };
+                if let Ok(Ok(p)) = sut::compile(&src) {
+                    let _ = guard(|| p.execute(ctx).map(|_| ()).map_err(|_| ()));
+                }
+                observe(ctx, m, h, progs, &format!("after executing `{src}` against the current scope"))?;
             }
             Op::Open => {
                 let before = observe(ctx, m, h, progs, "before open")?;
@@ -559,6 +570,7 @@ pub fn run(r: &mut Runner) {
                     Op::Open => depth += 1,
                     Op::Close => depth -= 1,
                     Op::Define(n, _, how) if u.chance(1, 4) => s = Op::Define(n, 4 + u.below(3) as u8, how),
+                    Op::Define(n, _, _) if u.chance(1, 6) => s = Op::Fold(n, u.below(2) as u8),
                     _ => {}
                 }
                 ops.push(s);
